@@ -780,6 +780,60 @@ mod part_b {
         drop(emu);
     }
 
+    /// A pointer guard has no lifetime: it may outlive the region (and the whole guest memory) it
+    /// came from - e.g. when the memory layout is swapped while an access is in flight. The window
+    /// it stands for stays mapped until the guard is dropped and is then released THROUGH THE
+    /// DEVICE like any other, also when the region held the last handle of the device file.
+    fn guard_outlives_its_region(seed: u64) {
+        for (vi, whole_memory) in [false, true].into_iter().enumerate() {
+            let mut emu = Emu::install(8 << 20);
+            let mut r = Rng::new(seed, "c17-outlive", vi as u64);
+            let gb = (20 + r.below(8)) * PAGE | (1 << 63);
+            let fo = emu.file_offset(0);
+            // the emulator keeps working through a duplicate descriptor; the registered one is
+            // from now on owned by the region alone
+            let dup = std::sync::Arc::new(emu.file.try_clone().expect("dup"));
+            let registered = std::mem::replace(&mut emu.file, dup);
+            drop(registered);
+            let pattern: Vec<u8> = (0..3 * 4096).map(|i| (i % 251) as u8 | 1).collect();
+            emu.write_guest(gb, &pattern);
+            let region = MmapRegion::<()>::from_range(MmapRange::new(3 * 4096, Some(fo), GuestAddress(gb), 0x2 | 0x8, 3)).expect("xen region");
+            let other = MmapRegion::<()>::from_range(MmapRange::new_unix(4096, None, GuestAddress(0x1000))).expect("unix region");
+            let gm = GuestMemoryMmap::from_regions(vec![GuestRegionMmap::new(other, GuestAddress(0x1000)).unwrap(), GuestRegionMmap::new(region, GuestAddress(gb)).expect("guest region")]).unwrap();
+            emu.clear();
+            let guard = {
+                let s = gm.get_slice(GuestAddress(gb + 4000), 200).expect("slice");
+                s.ptr_guard_mut()
+            };
+            let live_while_held = emu.live().len();
+            let _rest = if whole_memory {
+                drop(gm);
+                None
+            } else {
+                // only the region goes away: a map derived by removing it stays alive
+                let (rest, arc) = gm.remove_region(GuestAddress(gb), 3 * 4096).expect("remove");
+                drop(arc);
+                drop(gm);
+                Some(rest)
+            };
+            let live_after_region_drop = emu.live().len();
+            // the bytes are still reachable through the guard
+            // SAFETY: the guard claims the pointer valid for 200 bytes while it lives.
+            let seen: Vec<u8> = (0..200).map(|i| unsafe { guard.as_ptr().add(i).read_volatile() }).collect();
+            let data_ok = seen == pattern[4000..4200];
+            let dropped = guarded(move || drop(guard));
+            let live_end = emu.live().len();
+            let xlog = emu.take_log();
+            let unmapped_live = xlog.iter().filter(|x| matches!(x, XEv::Unmap { was_live: true, .. })).count();
+            if dropped.is_err() || live_while_held == 0 || live_after_region_drop == 0 || !data_ok || live_end != 0 || unmapped_live == 0 {
+                v("ondemand/guard-outlives-its-region/window-not-kept-or-not-released-through-the-device", jobj! {"dropping_the_guard_panicked" => dropped.is_err(), "grants_live_while_guard_held" => live_while_held, "grants_live_after_the_region_was_dropped" => live_after_region_drop, "bytes_readable_through_the_guard" => data_ok, "grants_live_after_guard_dropped" => live_end, "unmap_requests_for_live_grants" => unmapped_live});
+            }
+            out::key(&format!("ondemand|guard-outlives|{}", if whole_memory { "guest-memory" } else { "region" }), true);
+            out::eval(1);
+            drop(emu);
+        }
+    }
+
     /// The environment refuses to build the temporary window (the grant ioctl or the window's
     /// mmap fails): the access must not go ahead without one. Refusing by error or by panic are
     /// both "no access"; touching memory at the region's placeholder address is not.
@@ -845,6 +899,7 @@ mod part_b {
         if args.shard().0 == 0 {
             window_cannot_be_built(args.seed());
             two_domains(args.seed());
+            guard_outlives_its_region(args.seed());
         }
         let nops = args.u64("ops", 30);
         let mut opcount = 0u64;
